@@ -14,7 +14,11 @@
 (*   tstruct   [c |-> "tstruct", f |-> <<S..>>]  tuple struct, >= 2 fields     *)
 (*   newtype   [c |-> "newtype", e |-> S]        struct N(S)       -> S        *)
 (*   unitenum  [c |-> "unitenum", repr |-> "u32" | "u8" | "str"]  -> u / y / s *)
-(*   dataenum  [c |-> "dataenum", e |-> S]       enum { A(S), B(S) } -> (uS)   *)
+(*   dataenum  [c |-> "dataenum", vk |-> kind, e |-> S]  enum whose variants all have the same fields:  *)
+(*               vk = "newtype"  { A(S), B(S) }          -> (uS)               *)
+(*               vk = "tuple2"   { A(S, u8), B(S, u8) }  -> (u(Sy))            *)
+(*               vk = "struct1"  { A { x: S }, .. }      -> (u(S))   a struct variant is a struct, *)
+(*               vk = "struct2"  { A { x: S, y: u8 }, ..} -> (u(Sy))  whatever its field count      *)
 (*   dict      [c |-> "dict", f |-> <<leaf..>>]  #[zvariant(signature="dict")] *)
 (*                                               struct            -> a{sv}    *)
 (***************************************************************************)
@@ -35,7 +39,10 @@ ESig(S) ==
     [] S.c \in {"tuple", "struct", "tstruct"} -> <<40>> \o ESigSeq(S.f) \o <<41>>
     [] S.c = "newtype" -> ESig(S.e)
     [] S.c = "unitenum" -> (CASE S.repr = "u32" -> <<117>> [] S.repr = "u8" -> <<121>> [] S.repr = "str" -> <<115>>)
-    [] S.c = "dataenum" -> <<40, 117>> \o ESig(S.e) \o <<41>>
+    [] S.c = "dataenum" ->
+         (CASE S.vk = "newtype" -> <<40, 117>> \o ESig(S.e) \o <<41>>
+            [] S.vk = "struct1" -> <<40, 117, 40>> \o ESig(S.e) \o <<41, 41>>
+            [] S.vk \in {"tuple2", "struct2"} -> <<40, 117, 40>> \o ESig(S.e) \o <<121, 41, 41>>)
     [] S.c = "dict" -> <<97, 123, 115, 118, 125>>
 ExpectedSig(S) == ESig(S)
 
